@@ -115,9 +115,10 @@ func nextTheta(t *rapid.T) time.Duration {
 	case 3:
 		return -base - 5*365*24*time.Hour
 	case 4:
-		return base + time.Duration(rapid.Int64Range(0, int64(time.Second)).Draw(t, "theta-frac"))
+		return base + time.Duration(rapid.Int64Range(0, int64(400*time.Millisecond)).Draw(t, "theta-frac"))
 	default:
-		return base + 24*time.Hour
+		// an odd number of seconds: never equal to another kind's value of a later sequence number (those are even)
+		return base + 24*time.Hour + time.Second
 	}
 }
 
